@@ -294,7 +294,7 @@ fn ord_case(rng: &mut Rng, id: u64) {
                     let before = table.len();
                     let mut gidx = vec![];
                     for k in &batch {
-                        if sorted && emitted.contains(k) {
+                        if sorted && !adversarial && emitted.contains(k) {
                             ok = false;
                             why = format!("row with key {} arrives after its group was emitted", rowj(k));
                         }
@@ -331,7 +331,7 @@ fn ord_case(rng: &mut Rng, id: u64) {
                 obs.push(format!("{{\"tag\":{},\"cs\":{},\"cur\":{},\"sk\":{},\"emit\":{}}}", t, cs, cur, rowj(&sk), e));
                 if let Op::Done = op {
                     done = true;
-                    if e != -2 {
+                    if e != -2 && !adversarial {
                         ok = false;
                         why = "emit_to after input_done is not All".into();
                     }
@@ -347,10 +347,10 @@ fn ord_case(rng: &mut Rng, id: u64) {
                     let bs = rng.range(1, 4) as usize;
                     if e >= 0 {
                         let n = (e as usize).min(bs);
-                        if n > table.len() {
+                        if n > table.len() && !adversarial && sorted {
                             ok = false;
                             why = format!("emit_to First({}) exceeds the {} buffered groups", e, table.len());
-                        } else if n > 0 || adversarial {
+                        } else if n <= table.len() && (n > 0 || adversarial) {
                             for k in table.drain(..n) {
                                 emitted.push(k);
                             }
@@ -1105,6 +1105,26 @@ fn stream_case(rng: &mut Rng, rt: &tokio::runtime::Runtime, id: u64) {
     );
 }
 
+/// fixed witness inputs of the listed findings; they run first on every run
+fn witnesses(rt: &tokio::runtime::Runtime) {
+    let iv = |x: i64| V::I(x);
+    // KF-C06-1: single-stage GROUPING SETS aggregation that spills: the merge of the spilled runs groups on the
+    // grouping expressions only (the __grouping_id column is dropped) and fails with an internal Arrow error
+    let keys: Vec<Vec<V>> = vec![
+        vec![iv(3), iv(3)], vec![iv(-1), iv(-1)], vec![iv(-1), iv(3)], vec![iv(1), iv(3)], vec![iv(2), iv(0)],
+        vec![iv(1), V::Null], vec![iv(2), iv(1)], vec![iv(1), V::Null], vec![iv(3), iv(2)], vec![V::Null, iv(3)],
+        vec![iv(-1), V::Null], vec![iv(2), iv(2)], vec![V::Null, iv(1)], vec![iv(0), iv(2)], vec![iv(1), V::Null],
+    ];
+    let vals: Vec<V> = vec![iv(14), iv(5), iv(17), iv(-1), iv(15), iv(-3), iv(9), iv(8), iv(18), iv(3), iv(19), iv(2), iv(0), V::Null, iv(-1)];
+    let rows: Vec<(Vec<V>, V)> = keys.into_iter().zip(vals).collect();
+    let sets = vec![vec![false, false], vec![false, true], vec![true, true]];
+    let cfgs = vec![
+        Cfg { mode: "single", nparts: 1, sizes: vec![4, 1, 5], batch_size: 8192, mem: Some(3000), skip: None, migr: true, order: vec![] },
+        Cfg { mode: "single", nparts: 1, sizes: vec![4, 1, 5], batch_size: 8192, mem: None, skip: None, migr: true, order: vec![] },
+    ];
+    agg_case_with(rt, 1_000_000, &[KT::I, KT::I], &["count_star", "min"], &sets, &rows, &cfgs, "witness:KF-C06-1");
+}
+
 fn main() {
     let args: Vec<String> = std::env::args().collect();
     let seed: u64 = arg(&args, "--seed", "1").parse().unwrap();
@@ -1113,6 +1133,9 @@ fn main() {
     std::panic::set_hook(Box::new(|_| {}));
     let rt = tokio::runtime::Builder::new_multi_thread().worker_threads(2).enable_all().build().unwrap();
     let mut rng = Rng::new(seed);
+    if only.is_empty() || only == "agg" {
+        witnesses(&rt);
+    }
     for id in 0..n {
         let which = id % 10;
         if which < 5 {
